@@ -146,8 +146,12 @@ class FakeProcess:
 class FakeQueue:
     def __init__(self, maxsize: int = 0) -> None:
         self.items: List[Any] = []
+        self.maxsize = maxsize
 
     def put(self, x: Any) -> None:
+        if self.maxsize > 0 and len(self.items) >= self.maxsize:
+            # the manager is the only consumer of this queue: a put() on a full queue would block it for ever
+            raise RuntimeError("manager blocks on its own full action queue")
         self.items.append(x)
 
     def get(self) -> Any:
